@@ -1150,8 +1150,7 @@ func (db *ContractDB) ParseFile(path string, pkgPath string) error {
 }
 
 // Lookup returns the contract of a function to be used while checking property prop: the contract serving that
-// property if there is one, else a property-independent (trusted / library) contract, else the first contract
-// of another property (sorted by its first property id).
+// property if there is one, else a property-independent (library) contract, else none.
 func (db *ContractDB) Lookup(key, prop string) *FuncContract {
 	cs := db.Funcs[key]
 	if len(cs) == 0 {
@@ -1167,13 +1166,9 @@ func (db *ContractDB) Lookup(key, prop string) *FuncContract {
 			return c
 		}
 	}
-	best := cs[0]
-	for _, c := range cs[1:] {
-		if len(c.Props) > 0 && len(best.Props) > 0 && c.Props[0] < best.Props[0] {
-			best = c
-		}
-	}
-	return best
+	// no fallback to a contract that serves only OTHER properties: its preconditions would become obligations of this
+	// property. Share a contract explicitly by listing several properties (`props C08, C09`).
+	return nil
 }
 
 // Validate reports duplicate contracts (two contracts of one function serving the same property).
